@@ -4086,7 +4086,9 @@ class GraphTraversalReachability:
         Returns:
           Set of all object SHAs (commits, trees, blobs)
         """
-        commits_set = set(commits)
+        # Everything reachable includes the ancestors of the given commits,
+        # as it does in the bitmap of a commit.
+        commits_set = self.get_reachable_commits(commits)
         result = set(commits_set)
 
         # Get trees for all commits
